@@ -534,6 +534,7 @@ class FnContract:
         self.spec = ""
         self.prologue = ""
         self.loops = {}       # ordinal -> text
+        self.loopends = {}    # ordinal -> text spliced at the end of the loop body
         self.inserts = []     # (where, ordinal, anchor, text)
         self.helpers = {}     # name -> (params list, call args list)
         self.closures = []    # (ordinal, header)
@@ -566,6 +567,8 @@ def parse_contracts(path):
                 cur.prologue += text
             elif kind == "loop":
                 cur.loops[section[1]] = cur.loops.get(section[1], "") + text
+            elif kind == "loopend":
+                cur.loopends[section[1]] = cur.loopends.get(section[1], "") + text
             elif kind in ("before", "after"):
                 cur.inserts.append((kind, section[1], section[2], text))
         else:
@@ -587,7 +590,7 @@ def parse_contracts(path):
                 flush()
                 cur = line[8:].strip()
                 section = ("items",)
-            elif line.startswith("@") and not line.startswith("@@") and isinstance(cur, FnContract) and re.match(r"@(ret|spec|prologue|loop|before|after|helper|closure|attr|external_body|borrow)\b", line):
+            elif line.startswith("@") and not line.startswith("@@") and isinstance(cur, FnContract) and re.match(r"@(ret|spec|prologue|loopend|loop|before|after|helper|closure|attr|external_body|borrow)\b", line):
                 flush()
                 m = re.match(r"@(\w+)\s*(.*)$", line)
                 d, rest = m.group(1), m.group(2).strip()
@@ -600,6 +603,8 @@ def parse_contracts(path):
                     section = ("prologue",)
                 elif d == "loop":
                     section = ("loop", int(rest))
+                elif d == "loopend":
+                    section = ("loopend", int(rest))
                 elif d in ("before", "after"):
                     mm = re.match(r'(\d+)\s+"(.*)"\s*$', rest)
                     if not mm:
@@ -628,6 +633,8 @@ def parse_contracts(path):
                 elif d == "external_body":
                     cur.external_body = True
                     section = None
+            elif line.startswith("//"):
+                continue        # comment of the side-car file itself (contract text is always indented)
             else:
                 buf.append(line)
     flush()
@@ -639,7 +646,7 @@ def parse_contracts(path):
 def count_clauses(c):
     """number of specification clauses (requires/ensures/invariant/decreases/assert) in a contract"""
     n = 0
-    for text in [c.spec] + list(c.loops.values()) + [c.prologue] + [i[3] for i in c.inserts]:
+    for text in [c.spec] + list(c.loops.values()) + list(c.loopends.values()) + [c.prologue] + [i[3] for i in c.inserts]:
         # clauses are separated by top-level commas after a keyword; approximate: count keywords + top-level commas
         t = strip_comments(text)
         n += len(re.findall(r"\b(requires|ensures|invariant|invariant_except_break|decreases|assert)\b", t))
@@ -790,6 +797,11 @@ def extract_fn(sf, owner_item, fn_item, key, contract, log, mode="body"):
             if ordinal < 1 or ordinal > len(loops):
                 raise ExtractError("lost anchor: loop %d of %s (function has %d loops)" % (ordinal, key, len(loops)))
             inserts.append((loops[ordinal - 1][1], "\n" + ltext.rstrip() + "\n"))
+        for ordinal, ltext in contract.loopends.items():
+            if ordinal < 1 or ordinal > len(loops):
+                raise ExtractError("lost anchor: loop %d of %s (function has %d loops)" % (ordinal, key, len(loops)))
+            cbr = find_close(body, loops[ordinal - 1][1], bm)
+            inserts.append((cbr, "\n" + ltext.rstrip() + "\n"))
         if len(loops) != len(contract.loops) and loops:
             missing = [i + 1 for i in range(len(loops)) if (i + 1) not in contract.loops]
             if missing:
